@@ -38,7 +38,8 @@ type PropConfig struct {
 	ReceiverFrameAccessors map[string]string `json:"receiver_frame_accessors"`
 	// regexps on short keys: handlers whose events must take their addresses from the handler's own connection
 	EventAddress []string       `json:"event_address"`
-	SingleSender []SingleSender `json:"single_sender"` // channels (struct fields) that are sent on in the listed functions only
+	SingleSender []SingleSender `json:"single_sender"`
+	SingleWriter []SingleSender `json:"single_writer"` // struct fields assigned (non-nil) in the listed functions only // channels (struct fields) that are sent on in the listed functions only
 	PathAxioms   map[string]int `json:"path_axioms"`   // tier -> maximum number of path components
 	// returns that are unreachable under the contracts' assumptions, each reviewed and explained; any
 	// other unreachable return is reported as a vacuity violation
@@ -272,6 +273,11 @@ func cmdCheck(args []string) {
 			}
 		}
 		cfg.Assumes = append(cfg.Assumes, fmt.Sprintf("receiver-frame rule (back end: go/ssa, structural): %d handlers decided: no store, map update or delete whose target is reached from the receiver by field selection, indexing and loads, in the handler, the closures that capture the receiver and the module functions it hands the receiver to (three levels); accessors exempt because verified against their own contract: %s; not covered: writes made by functions that receive a pointer loaded from the receiver (not the receiver itself), and by interface or third-party methods", cnt, strings.Join(accNames, ", ")))
+	}
+	if len(cfg.SingleWriter) > 0 {
+		sw := L.singleWriterRule(cfg.SingleWriter)
+		all = append(all, sw...)
+		cfg.Assumes = append(cfg.Assumes, fmt.Sprintf("single-writer rule (back end: go/ssa, structural): %d struct fields receive a value only in the functions whose contracts release the replaced one", len(cfg.SingleWriter)))
 	}
 	if len(cfg.SingleSender) > 0 {
 		ss := L.singleSenderRule(cfg.SingleSender)
